@@ -290,7 +290,15 @@ func (e *Engine) verifyFuncMode(fn *ssa.Function, cfg SolverCfg, mode string) *F
 			proved[o.Ob] = true
 		}
 	}
-	res.Vacuous = e.checkReach(vc, cfg, base, proved)
+	allProved := true
+	for _, o := range res.Obs {
+		if !proved[o.Ob] {
+			allProved = false // reported on its own; what follows a failed obligation is checked under its assumption anyway
+		}
+	}
+	if allProved {
+		res.Vacuous = e.checkReach(vc, cfg, base, proved)
+	}
 	res.Notes = append([]string{}, vc.notes...)
 	res.Seconds = time.Since(t0).Seconds()
 	if os.Getenv("GOVC_KEEP") == "" {
@@ -360,8 +368,39 @@ func (e *Engine) checkReach(vc *VC, cfg SolverCfg, base string, proved map[*Obli
 		b.WriteString("(push 1)\n(assert " + pc + ")\n(check-sat)\n(pop 1)\n")
 		qs = append(qs, q{name, ret})
 	}
+	type pairQ struct {
+		before, after int // indices into qs (-1: none)
+		what          string
+	}
+	var pairs []*pairQ
+	askAlways := func(pc, name string) int {
+		if pc == "" || pc == "false" || len(qs) >= 160 {
+			return -1
+		}
+		if pc == "true" {
+			b.WriteString("(push 1)\n(check-sat)\n(pop 1)\n")
+		} else {
+			b.WriteString("(push 1)\n(assert " + pc + ")\n(check-sat)\n(pop 1)\n")
+		}
+		qs = append(qs, q{name, false})
+		return len(qs) - 1
+	}
+	open := map[int]*pairQ{}
 	trivialReturn := false
 	for i, it := range vc.items {
+		for k := range vc.applyMarks {
+			m := &vc.applyMarks[k]
+			if m.to > m.from && m.from == i && len(pairs) < 40 {
+				pq := &pairQ{before: askAlways(m.pc, "before:"+m.what), after: -1, what: m.what}
+				pairs = append(pairs, pq)
+				open[k] = pq
+			}
+			if m.to > m.from && m.to == i {
+				if pq := open[k]; pq != nil {
+					pq.after = askAlways(m.pc, "after:"+m.what)
+				}
+			}
+		}
 		for _, m := range vc.returnMarks {
 			if m.at == i {
 				if m.pc == "true" {
@@ -383,6 +422,14 @@ func (e *Engine) checkReach(vc *VC, cfg SolverCfg, base string, proved map[*Obli
 			// only what has been discharged (or is outside this unit's claim) is assumed: an obligation that failed
 			// is reported as such, and must not in addition make what follows look unreachable
 			b.WriteString("(assert " + ob.Term + ")\n")
+		}
+	}
+	for k := range vc.applyMarks {
+		m := &vc.applyMarks[k]
+		if m.to > m.from && m.to >= len(vc.items) {
+			if pq := open[k]; pq != nil && pq.after < 0 {
+				pq.after = askAlways(m.pc, "after:"+m.what)
+			}
 		}
 	}
 	for _, m := range vc.returnMarks {
@@ -414,15 +461,28 @@ func (e *Engine) checkReach(vc *VC, cfg SolverCfg, base string, proved map[*Obli
 			if st == "unsat" {
 				deadRets++
 				if qq.name == "last-return" {
-					vac = append(vac, vc.fn.String()+"#last-return (the function's final return statement is unreachable)")
+					vc.note("the function's final return statement is unreachable under the collected hypotheses")
 				}
 			}
+			continue
+		}
+		if strings.HasPrefix(qq.name, "before:") || strings.HasPrefix(qq.name, "after:") {
 			continue
 		}
 		if st == "unsat" {
 			// a loop or call site in dead code (a type-switch arm of a generic instance, a branch on a constant
 			// build-configuration flag) is legitimate: reported as a note, not as a violation
 			vc.note("unreachable program point under the collected hypotheses: %s", qq.name)
+		}
+	}
+	// a callee contract whose application turns a feasible path into an infeasible one contradicts what is known
+	// at the call site (inconsistent contract, or inconsistent built-in facts)
+	for _, pq := range pairs {
+		if pq.before < 0 || pq.after < 0 || pq.before >= len(rs) || pq.after >= len(rs) {
+			continue
+		}
+		if rs[pq.before] != "unsat" && rs[pq.after] == "unsat" {
+			vac = append(vac, vc.fn.String()+"#inconsistent: "+pq.what+" makes the path infeasible")
 		}
 	}
 	if rets > 0 && deadRets == rets && !trivialReturn {
